@@ -173,6 +173,20 @@ func runTruncCase(x *acCtx, c *acCase) {
 		}
 	}
 	for k := 0; k < payloadEnd; k++ {
+		if payloadEnd > 8192 && k > 700 && k < payloadEnd-700 && k%1499 != 0 {
+			// large files: both ends densely, the middle with a stride (plus every section boundary +-2)
+			near := false
+			for _, s := range c.Scan {
+				for _, b := range []int{int(s.Src), c.Layout.DataOff + int(s.Doff)} {
+					if k >= b-2 && k <= b+40 {
+						near = true
+					}
+				}
+			}
+			if !near {
+				continue
+			}
+		}
 		ends := map[string]string{}
 		for _, rk := range readers {
 			n, bad, end, _ := scanOutcome(c, rk, file[:k])
